@@ -427,6 +427,23 @@ type vsScript struct {
 
 type vsObs map[string]interface{}
 
+// vsOutgoing / vsIncoming: minimal Outgoing / Incoming implementations for the SendFor api
+type vsOutgoing struct {
+	typ  MessageType
+	data []byte
+}
+
+func (o vsOutgoing) MarshalBinary() ([]byte, error) { return o.data, nil }
+func (o vsOutgoing) Type() MessageType               { return o.typ }
+
+type vsIncoming struct {
+	typ  MessageType
+	data []byte
+}
+
+func (i *vsIncoming) UnmarshalBinary(b []byte) error { i.data = b; return nil }
+func (i *vsIncoming) Type() MessageType               { return i.typ }
+
 type vsCaller struct {
 	done   chan struct{}
 	cancel context.CancelFunc
@@ -648,6 +665,15 @@ func (s *vsSess) startCaller(st vsStep, shutdown bool) vsObs {
 			} else {
 				cr.data, cr.hasData = data, true
 				cr.res = vsObs{"res": "ok", "typ": int(typ)}
+			}
+		case "SendFor":
+			// the third exported way to submit a message: an Outgoing whose Type() is whatever the script says
+			in := &vsIncoming{typ: MessageType(st.Typ)}
+			err := s.c.SendFor(ctx, vsOutgoing{typ: MessageType(st.Typ), data: payload}, in)
+			cr.res = vsObs{"res": vsClassify(err)}
+			if err == nil {
+				cr.data, cr.hasData = in.data, true
+				cr.res = vsObs{"res": "ok", "typ": st.Typ}
 			}
 		case "send", "SendNoWait":
 			var m Message
@@ -1096,7 +1122,7 @@ func (s *vsSess) finish() vsObs {
 	}
 	vsSettle(s.limit)
 	if len(s.raw) > 0 {
-		if len(s.raw) <= 1<<18 {
+		if len(s.raw) <= 1<<19 {
 			fin["raw_hex"] = hex.EncodeToString(s.raw)
 		}
 		fin["raw_len"] = len(s.raw)
